@@ -12,6 +12,7 @@ CONSTANTS
   MaxStall = 0
   RotateFollows = TRUE
   WholeBatches = TRUE
+  PollRereads = TRUE
 INVARIANTS TypeOK AppliedIsPrefix NoSplitBatch ExpectedFollowsApplied ReportedLeApplied AckLeApplied
 PROPERTIES ReportedMonotone AppliedOnlyGrows
 CHECK_DEADLOCK FALSE
